@@ -104,6 +104,7 @@ fn real_main() {
         "dbg01" => props::tools::dbg01(&args[2..]),
         "c05-families" => props::tools::c05_families(),
         "c16-batch" => props::c16::batch_main(),
+        "dbg17" => props::c17::dbg_main(&args[2..]),
         "twice" => props::tools::twice(&args[2..]),
         "fmt" => props::tools::fmt(&args[2..]),
         id => {
